@@ -93,3 +93,11 @@ class BLOB(Element):
         ), f"Blob size differs: {msg.size} declared vs {blob_value.size} measured"
 
         self._value = blob_value
+
+    def to_new_message(self):
+        return self.new_message_class(
+            name=self.name,
+            value=self._new_value.binary_base64,
+            format=self._new_value.format,
+            size=self._new_value.size,
+        )
